@@ -294,6 +294,13 @@ func init() {
 		return tConv(OpFFromBits, args[0].(*Term), SFP, 32)
 	}
 
+	round := func(op Op) modelFn {
+		return func(in *Interp, fr *Frame, args []Value, call *ssa.CallCommon) Value { return tUn(op, args[0].(*Term)) }
+	}
+	m["math.Trunc"], m["math.Floor"], m["math.Ceil"] = round(OpFRoundZ), round(OpFRoundN), round(OpFRoundP)
+	m["math.archTrunc"], m["math.archFloor"], m["math.archCeil"] = round(OpFRoundZ), round(OpFRoundN), round(OpFRoundP)
+	m["math.IsNaN"] = func(in *Interp, fr *Frame, args []Value, call *ssa.CallCommon) Value { return tUn(OpFIsNaN, args[0].(*Term)) }
+
 	// ---- bytealg leaves ----
 	m["internal/bytealg.IndexByteString"] = func(in *Interp, fr *Frame, args []Value, call *ssa.CallCommon) Value {
 		return in.indexByte(args[0].(Str), args[1].(*Term))
